@@ -9,12 +9,15 @@ from ..generic import stale_alias
 from ..pathcond import implied
 
 MANIFEST = {
-    'technique': 'sharing-contract table (SHARED vs COPIED classification of each state component on every path of copy/proxy/flow_proxy/link_with/unlink); positional provenance check of __reduce__ tuples against reconstructor signatures; dead-optional-parameter rule for constructors; stale-alias rule for copy_like',
-    'text': 'Decides for every input: copy() copies flows, phase and thermal condition; flow_proxy shares flow data only; proxy shares the indexer and the '
-            'thermal condition; link_with shares exactly the parts selected by its flags on every path; unlink copies data, phase and thermal condition '
-            'and resets caches; every __reduce__ tuple lines up position by position with its reconstructor; every optional constructor argument that '
-            'is compared with None is also used as a value (so it cannot be silently discarded); copy_like implementations use no stale alias of '
-            're-bound containers. Equality of observable state after unpickling is not decided.',
+    'technique': 'sharing-contract table (SHARED vs COPIED classification of each state component on every path of copy/proxy/flow_proxy/link_with/unlink); positional '
+            'provenance check of __reduce__ tuples against reconstructor signatures; dead-optional-parameter rule for constructors; stale-alias rule for copy_like; '
+            'must-follow rules for the cached views and the lookup cache of a copy target',
+    'text': 'Decides for every input: copy() copies flows, phase and thermal condition; flow_proxy shares flow data only; proxy shares the indexer and the thermal '
+            'condition; link_with shares exactly the parts selected by its flags on every path; unlink copies data, phase and thermal condition and resets caches; '
+            'every __reduce__ tuple lines up position by position with its reconstructor; every optional constructor argument that is compared with None is also '
+            'used as a value (so it cannot be silently discarded); copy_like implementations use no stale alias of re-bound containers, and the storage / phase '
+            "tuple they re-bind on the target is followed by dropping the target's cached mass/volume views and re-selecting its lookup cache. Equality of "
+            'observable state after unpickling is not decided.',
 }
 
 ST = 'thermosteam/_stream.py'
@@ -30,6 +33,8 @@ def run(ctx):
         'D2 __reduce__ argument tuples match their reconstructors position by position; cucumber pickles every slot of the MRO',
         'D3 optional constructor arguments are used as values, not only tested (arguments reach state)',
         'D4 no stale alias in copy_like implementations',
+        'D5 re-binding of view-wrapped storage (as done by copy_like through _expand_phases / row replacement) drops the cached mass/volume views',
+        'D6 after copy_like / mix_from change the phase tuple the shared lookup cache is re-selected for the new (phases, chemicals) key',
     ]
     ctx.not_decided = ['equality of observable state after unpickling', 'Chemical/Thermo pickles beyond the argument tuple']
     d1 = ctx.rule('D1', 'sharing contract table', floor=14)
@@ -43,6 +48,15 @@ def run(ctx):
     for cname in ('ChemicalIndexer', 'MaterialIndexer'):
         f = prog.method(cname, 'copy_like', rel=IX)
         stale_alias(prog, eff, f, {'_phases', '_phase_indexer', 'data', '_index_cache', '_data_cache'}, d4)
+    # copy_like / copy_flow must make ALL flow views of the target equal to the source's: the cached mass/volume views of the
+    # target have to follow the storage that copy_like re-binds (phase expansion, row replacement)
+    d5 = ctx.rule('D5', 'cached views of the copy target follow the storage copy_like re-binds', floor=6)
+    from .C11 import view_coherence
+    view_coherence(ctx, d5)
+    # copy_like onto a target with other phases re-binds the phase tuple: lookups by phase on the copy must use the new rows
+    d6 = ctx.rule('D6', 'the per-(phases, chemicals) index cache of the copy target is refreshed after its inputs change', floor=3)
+    from ..generic import index_cache_follows_inputs
+    index_cache_follows_inputs(prog, d6)
 
 
 def _stores(p):
@@ -173,7 +187,20 @@ def sharing(ctx, d1):
             d1.fail('Stream.link_with', 'contract-' + k, bad[k], f, f.node)
         else:
             d1.ok('Stream.link_with', '%s shared exactly when selected (%d paths)' % (k, n), f)
-    # unlink
+    unlink_rule(ctx, d1, expect)
+
+
+def unlink_rule(ctx, d1, expect=None):
+    """unlink ends ALL sharing (also used by C11: after unlink the mass/volume view cache must be the stream's own)"""
+    prog = ctx.prog
+    if expect is None:
+        def expect(cons, f, got, table):
+            for tgt, (want, meaning) in table.items():
+                g = got.get(tgt)
+                if g == want:
+                    d1.ok(cons, '%s = %s (%s)' % (tgt, want, meaning), f)
+                else:
+                    d1.fail(cons, 'contract-' + tgt.split('.')[-1], '%s is %s, contract requires %s (%s)' % (tgt, g, want, meaning), f, f.node)
     f = prog.method('Stream', 'unlink', rel=ST)
     ps, _ = run_paths(f.node)
     n = 0
@@ -194,8 +221,10 @@ def sharing(ctx, d1):
             d1.ok('Stream.unlink', 'caches reset (property memo and mass/volume views)', f)
         else:
             d1.fail('Stream.unlink', 'contract-caches', 'unlink does not reset the caches', f, f.node)
-    t_ = ' '.join(ast.unparse(f.node).split())
-    if "if hasattr(self, '_streams'): self._streams.clear()" in t_:
+    drops = [n_ for n_ in walk_no_nested(f.node)
+             if (isinstance(n_, ast.Call) and src(n_.func) == 'self._streams.clear')
+             or (isinstance(n_, ast.Assign) and any(src(t) == 'self._streams' for t in n_.targets) and src(n_.value) in ('{}', 'dict()'))]
+    if drops:
         d1.ok('Stream.unlink', 'per-phase sub-streams (which share the old data and thermal condition) are dropped', f)
     else:
         d1.fail('Stream.unlink', 'contract-substreams', 'unlink leaves the per-phase sub-streams attached to the former partner\'s data / thermal condition', f, f.node)
